@@ -76,11 +76,18 @@ run_until(br_sslio_context *ctx, unsigned target)
 				 * still send something, then we have our
 				 * own response close_notify to send, and
 				 * the peer is allowed by RFC 5246 not to
-				 * wait for it.
+				 * wait for it. The closure is then complete:
+				 * the engine is closed, without an error
+				 * (otherwise it would keep offering the
+				 * close_notify for sending, and
+				 * br_sslio_close() would loop forever).
 				 */
 				if (!ctx->engine->shutdown_recv) {
 					br_ssl_engine_fail(
 						ctx->engine, BR_ERR_IO);
+				} else {
+					br_ssl_engine_fail(
+						ctx->engine, BR_ERR_OK);
 				}
 				return -1;
 			}
